@@ -3,6 +3,7 @@
 BASELINE.json's stable_pass list: prints every stable_pass test that did not pass."""
 import json, sys, xml.etree.ElementTree as ET
 junit = sys.argv[1]
+subset = '--subset' in sys.argv  # only judge stable_pass tests that the junit file reports
 base = json.load(open('/root/.vp/BASELINE.json'))
 stable = set(base['stable_pass'])
 res = {}
@@ -10,7 +11,7 @@ for tc in ET.parse(junit).getroot().iter('testcase'):
     name = f"{tc.get('classname')}::{tc.get('name')}"
     bad = [c.tag for c in tc if c.tag in ('failure', 'error', 'skipped')]
     res[name] = bad[0] if bad else 'pass'
-missing = sorted(n for n in stable if res.get(n) != 'pass')
+missing = sorted(n for n in stable if res.get(n) != 'pass' and (not subset or n in res))
 print(f"stable_pass={len(stable)} reported={len(res)} passed={sum(v=='pass' for v in res.values())}")
 for n in missing:
     print('NOT-PASS', n, res.get(n, 'absent'))
